@@ -285,6 +285,12 @@ fn write_edit(from: &Content, to: &Content, abandoned_first: Option<&Content>, v
 }
 
 fn write_edit_opt(from: &Content, to: &Content, abandoned_first: Option<&Content>, via_remove_all: bool, churn: bool) -> Zone {
+    write_edit_full(from, to, abandoned_first, false, via_remove_all, churn)
+}
+
+/// `abandon_as_replacement`: the abandoned attempt is a full replacement (remove_all, then the junk
+/// content is written), as an AXFR that dies half way does it.
+fn write_edit_full(from: &Content, to: &Content, abandoned_first: Option<&Content>, abandon_as_replacement: bool, via_remove_all: bool, churn: bool) -> Zone {
     let zone = build_direct(from, false);
     let rt = rt();
     rt.block_on(async {
@@ -293,8 +299,11 @@ fn write_edit_opt(from: &Content, to: &Content, abandoned_first: Option<&Content
             let apex = w.open(false).await.unwrap();
             let mut names: BTreeSet<RelName> = from.names.keys().cloned().collect();
             names.extend(junk.names.keys().cloned());
+            if abandon_as_replacement {
+                apex.remove_all().await.unwrap();
+            }
             for n in &names {
-                write_name(apex.as_ref(), junk, Some(from), n).await;
+                write_name(apex.as_ref(), junk, if abandon_as_replacement { None } else { Some(from) }, n).await;
             }
             drop(apex);
             drop(w); // never committed
@@ -317,7 +326,8 @@ fn write_edit_opt(from: &Content, to: &Content, abandoned_first: Option<&Content
                 .iter()
                 .filter(|n| {
                     changed.iter().any(|ch| {
-                        let below = n.len() >= ch.len() && n[..ch.len()] == ch[..];
+                        // (the apex always changes - its SOA serial does - but it is never a cut: only the apex itself is rewritten then)
+                        let below = if ch.is_empty() { n.is_empty() } else { n.len() >= ch.len() && n[..ch.len()] == ch[..] };
                         let cut_above = ch.len() > n.len() && ch[..n.len()] == n[..] && (from.is_cut(n) || to.is_cut(n));
                         // the glue of a cut is part of the cut: rewrite it when a target's addresses change
                         let glue_of = ns_targets(from, n).contains(ch) || ns_targets(to, n).contains(ch);
@@ -351,7 +361,8 @@ fn write_edit2(from2: &Content, from: &Content, to: &Content) -> Zone {
                 .iter()
                 .filter(|n| {
                     changed.iter().any(|ch| {
-                        let below = n.len() >= ch.len() && n[..ch.len()] == ch[..];
+                        // (the apex always changes - its SOA serial does - but it is never a cut: only the apex itself is rewritten then)
+                        let below = if ch.is_empty() { n.is_empty() } else { n.len() >= ch.len() && n[..ch.len()] == ch[..] };
                         let cut_above = ch.len() > n.len() && ch[..n.len()] == n[..] && (a.is_cut(n) || b.is_cut(n));
                         let glue_of = ns_targets(a, n).contains(ch) || ns_targets(b, n).contains(ch);
                         below || cut_above || glue_of
@@ -694,6 +705,21 @@ fn main() {
                     }
                 }
             }
+            // an abandoned full replacement (remove_all + part of `busy`, or remove_all alone), then the real edit
+            for (h, junk) in [("write-edit-after-abandoned-replacement", &busy), ("write-edit-after-abandoned-remove_all", &bare)] {
+                if quick && h.ends_with("replacement") && nks[0] == ks[0] {
+                    continue;
+                }
+                match guard(|| write_edit_full(&from, &c, Some(junk), true, false, false)) {
+                    Ok(z) => {
+                        tr(1);
+                        check_zone(&ctx, &stats, &z, &c, h, Some(&[&from, junk]), &case2)
+                    }
+                    Err(p) => {
+                        ctx.violation(&format!("C08|{h}|panic|{}", panic_class(&p)), &p, case2());
+                    }
+                }
+            }
             // an abandoned attempt (towards `busy`) first, then the real edit
             if !quick || nks[0] != ks[0] {
                 match guard(|| write_edit(&from, &c, Some(&busy), false)) {
@@ -743,7 +769,7 @@ fn main() {
             "traces_validated_against_impl": t,
             "evaluations": stats.evals(),
             "distinct_nontrivial": stats.distinct_count(),
-            "rule": "states = all zone contents (kind per slot name, consistent with zone rules); transitions = histories executed on the real zone (builder fwd/rev, parsed zonefile, updater full replacement from bare and busy zones, write interface from bare / via remove_all, and for every single-slot neighbour content an updater edit, a write-interface edit and a write-interface edit after an abandoned attempt; thorough: also two committed write batches through every pair of successive single-slot edits); evaluations = (qname,qtype) queries + walks compared with the reference resolver",
+            "rule": "states = all zone contents (kind per slot name, consistent with zone rules); transitions = histories executed on the real zone (builder fwd/rev, parsed zonefile, updater full replacement from bare and busy zones, write interface from bare / via remove_all, and for every single-slot neighbour content an updater edit, a write-interface edit, a write-interface edit after an abandoned attempt and after an abandoned full replacement (remove_all, with and without rewriting); thorough: also two committed write batches through every pair of successive single-slot edits); evaluations = (qname,qtype) queries + walks compared with the reference resolver",
             "exhaustive": true,
             "zone_tree": {"zones": T_ZONES.iter().map(|(n, c)| format!("{n}/{c}")).collect::<Vec<_>>(), "qnames": T_QNAMES, "operation_sequences": tree_seqs, "final_zone_sets_reached": tree_sets, "rule": "every sequence of insert/remove over the 7 zones (two classes, nested apexes, root) to the depth bound on a real ZoneTree; after every step find_zone for every qname x class == nearest present ancestor (RFC 1034 4.3.2 step 2), get_zone and iter_zones == present set"},
             "slots": SLOTS,
